@@ -50,6 +50,12 @@ func newOpSet(name string, extra []oper.Operator, builtin bool) *opSet {
 	return s
 }
 
+// withFront: the same set with further operators registered BEFORE everything else (the facade puts user operators first)
+func (s *opSet) withFront(front []oper.Operator) *opSet {
+	ops := append(append([]oper.Operator{}, front...), s.ops...)
+	return newOpSet(s.name, ops, false)
+}
+
 func (s *opSet) lex(src string) (toks []*token.Token, ok bool) {
 	defer func() {
 		if r := recover(); r != nil {
@@ -252,6 +258,17 @@ func runC09(r *Run) {
 			{Kind: "ˆ", BP: 9, Fixity: oper.INFIX_R}}, false),
 		newOpSet("builtin+::,:=", []oper.Operator{
 			{Kind: "::", BP: 6, Fixity: oper.INFIX_R}, {Kind: ":=", BP: 1, Fixity: oper.INFIX_R}}, true),
+		// registration orders that the sort has to repair: shorter symbolic, identifier-like, longer symbolic with the
+		// shorter one as prefix; three- and four-character operators extending two-character ones registered earlier
+		newOpSet("only:<,and,<=,=,*,not,**,<=>,xor,<==>,&,&&,&&&", []oper.Operator{
+			{Kind: "<", BP: 6, Fixity: oper.INFIX_N}, {Kind: "and", BP: 3, Fixity: oper.INFIX_L}, {Kind: "<=", BP: 6, Fixity: oper.INFIX_N},
+			{Kind: "=", BP: 2, Fixity: oper.INFIX_R}, {Kind: "*", BP: 8, Fixity: oper.INFIX_L}, {Kind: "not", BP: 10, Fixity: oper.PREFIX},
+			{Kind: "**", BP: 9, Fixity: oper.INFIX_R}, {Kind: "<=>", BP: 6, Fixity: oper.INFIX_N}, {Kind: "xor", BP: 3, Fixity: oper.INFIX_L},
+			{Kind: "<==>", BP: 2, Fixity: oper.INFIX_N}, {Kind: "&", BP: 5, Fixity: oper.INFIX_L}, {Kind: "&&", BP: 4, Fixity: oper.INFIX_L},
+			{Kind: "&&&", BP: 4, Fixity: oper.INFIX_L}}, false),
+		newOpSet("&,|,xor+builtin+!==,===,||>", []oper.Operator{
+			{Kind: "!==", BP: 6, Fixity: oper.INFIX_N}, {Kind: "===", BP: 6, Fixity: oper.INFIX_N}, {Kind: "||>", BP: 2, Fixity: oper.INFIX_L}}, true).withFront(
+			[]oper.Operator{{Kind: "&", BP: 5, Fixity: oper.INFIX_L}, {Kind: "|", BP: 5, Fixity: oper.INFIX_L}, {Kind: "xor", BP: 3, Fixity: oper.INFIX_L}}),
 	}
 	// corpus first
 	corpus := []string{"truex", "trueand false", "1or 2", "a.b", "a .+ b", "a.+b", "x?.y", "1.2.3", "0x0F", "0123", "1e5e6", "1.e3", "\"a\\u00e9\\n\"", "\"bad\\q\"",
@@ -264,11 +281,19 @@ func runC09(r *Run) {
 		r.Sample(fmt.Sprintf("%q", c))
 	}
 	// exhaustive over a mixed alphabet per operator set
+	for _, c := range []string{"a<=b", "a<=>b", "a<==>b", "a<b", "a**b", "a*b", "a&&b", "a&&&b", "a&b", "a!==b", "a===b", "a||>b", "a||b", "a|b", "a!=b", "a==b", "x and y", "not x", "a xor b",
+		"a<= >b", "a<==b", "a***b", "a&&&&b", "a<=>=b"} {
+		for _, s := range sets {
+			c09One(r, s, c)
+		}
+	}
 	alphabets := [][]rune{
 		{'t', 'r', 'u', 'e', 'o', '1', '.', '<', '=', '!', ' ', '\n', '"', 'é'},
 		{'i', 's', 'n', 't', '.', '+', '=', '>', '<', '0', 'x', ' ', '\'', '_'},
 		{'+', '!', '~', '>', 'i', 'n', 'ˆ', '1', 'e', '.', '-', ' ', '`', '\\'},
 		{':', '=', 'a', '1', ' ', '?', '[', ']'},
+		{'<', '=', '>', '*', '&', 'a', 'n', 'd', ' ', '1'},
+		{'!', '=', '|', '>', '&', 'x', 'o', 'r', ' ', '.'},
 	}
 	depth := 4
 	if r.Tier == "thorough" {
